@@ -248,6 +248,11 @@ def remaining_size_flow(fn, size_id, data_id, entry_state):
                                 for f in literals(e['cond'], True):
                                     if f[0] == 'cmp' and f[1] == '<' and strip(f[2]).get('id') == i.get('id') and strip(f[3]).get('id') == size_id:
                                         bounded = True
+                                    # `i + k < size` with k >= 0 implies i < size
+                                    l_ = strip(f[2]) if f[0] == 'cmp' else None
+                                    if f[0] == 'cmp' and f[1] in ('<', '<=') and l_.get('k') == 'BinaryOperator' and l_.get('op') == '+' and strip(f[3]).get('id') == size_id and \
+                                            strip(l_['l']).get('id') == i.get('id') and (const_of(l_['r']) or 0) >= (0 if f[1] == '<' else 1):
+                                        bounded = True
                         need((lb, d), loc, show(x), bounded and d >= 0, symbolic_size=True)
             for x in walk(s):
                 ap = assign_parts(x)
@@ -338,6 +343,12 @@ def analyse(facts, tier):
                     if n2 and strip(n2[1]).get('id') == e_size['id'] and n2[0] in ('>=', '>'):
                         have.add('min-size')
                 missing = {'F0-first', 'F7-last', 'min-size'} - have
+                # 7-bit data screen: a loop over the bytes between the frame bytes that rejects any byte with bit 7 set finishes
+                # before the hand-over (the handlers mask with 0x7F what they decode, so F0 7E 7F 89 81 F7 would act as GM System On)
+                scr = data_screen(entry, e_data['id'], e_size['id'], b)
+                obls.append(Obl('C19.R0', entry.name, '7-bit data screen before ' + short(n), st['loc'], 'discharged' if scr else 'finding',
+                                why='every byte between F0 and F7 is tested against 0x80 (%s)' % scr if scr else
+                                'no loop rejects bytes with bit 7 set before the hand-over: the handlers mask the bytes they decode, so a malformed string (data byte >= 0x80) is accepted and takes effect'))
                 # the size passed on must exclude the framing bytes: args are the advanced pointer and reduced size
                 obls.append(Obl('C19.R0', entry.name, 'call ' + short(n), st['loc'], 'finding' if missing else 'discharged',
                                 why=('missing framing guard(s): ' + ', '.join(sorted(missing))) if missing else 'framing guards dominate the hand-over',
@@ -483,3 +494,62 @@ def r4_frame_and_id(facts):
         out.append(Obl('C19.R4', sd.name, 'accepted device ids', '%s:%s' % (sd.file, ln), 'discharged' if ok else 'finding',
                        why='exactly 0..15' if ok else 'the setter accepts %s, the handlers match the 4-bit ids 0..15: an id outside the accepted set cannot be selected (the previous id stays in force), an id above 15 can never match' % v))
     return out
+
+
+def data_screen(fn, data_id, size_id, call_block):
+    """a `for(i = k; i + 1 < size (or i < size - 1); ++i) if(data[i] & 0x80) return false;` whose exit dominates the call block;
+    k <= 1 (the frame byte itself may be included).  Returns a description or None."""
+    def rec(t):
+        if isinstance(t, dict):
+            if t.get('k') == 'ForStmt':
+                yield t
+            for k2 in ('body', 'then', 'else', 'sub'):
+                v = t.get(k2)
+                if isinstance(v, (dict, list)):
+                    for y in rec(v):
+                        yield y
+        elif isinstance(t, list):
+            for y in t:
+                for z in rec(y):
+                    yield z
+    for loop in rec(fn.tree):
+        # induction variable and start
+        iv = start = None
+        init = loop.get('init')
+        for y in walk(init):
+            if isinstance(y, dict) and y.get('k') == 'DeclStmt':
+                for v in y.get('decls', []):
+                    iv, start = v['id'], const_of(v.get('init'))
+            ap = assign_parts(y) if isinstance(y, dict) else None
+            if ap and strip(ap[0]).get('k') == 'DeclRefExpr':
+                iv, start = strip(ap[0])['id'], const_of(ap[1])
+        if iv is None or start is None or start > 1:
+            continue
+        c = strip(loop.get('cond'))
+        covers = False
+        if c is not None and c.get('k') == 'BinaryOperator' and c.get('op') == '<':
+            l, r = strip(c['l']), strip(c['r'])
+            if l.get('k') == 'BinaryOperator' and l['op'] == '+' and strip(l['l']).get('id') == iv and const_of(l['r']) == 1 and r.get('id') == size_id:
+                covers = True
+            if l.get('id') == iv and r.get('k') == 'BinaryOperator' and r['op'] == '-' and strip(r['l']).get('id') == size_id and const_of(r['r']) == 1:
+                covers = True
+            if l.get('id') == iv and r.get('id') == size_id:
+                covers = True
+        if not covers:
+            continue
+        # body: if(data[iv] & 0x80 ...) return false
+        rejects = False
+        for y in walk(loop.get('body')):
+            if isinstance(y, dict) and y.get('k') == 'IfStmt':
+                m = [z for z in walk(y.get('cond')) if isinstance(z, dict) and z.get('k') == 'BinaryOperator' and z.get('op') == '&' and 0x80 in (const_of(z['l']), const_of(z['r']))]
+                sub = [z for z in walk(y.get('cond')) if isinstance(z, dict) and z.get('k') == 'ArraySubscriptExpr' and strip(z['b']).get('id') == data_id and strip(z['i']).get('id') == iv]
+                ret = [z for z in walk(y.get('then')) if isinstance(z, dict) and z.get('k') == 'ReturnStmt' and const_of(z.get('e')) == 0]
+                if m and sub and ret:
+                    rejects = True
+        if not rejects:
+            continue
+        # the loop precedes the call: its header block dominates the call block
+        for bid, blk in fn.cfg.blocks.items():
+            if blk.get('term') == 'ForStmt' and blk.get('cond') is not None and show(blk['cond']) == show(loop.get('cond')) and fn.cfg.block_dominates(bid, call_block):
+                return 'loop at line %s' % loop.get('ln')
+    return None
